@@ -3,6 +3,27 @@
 pub mod verif_std {
 use super::*;
 
+// ---- integers <-> little-endian bytes (textbook definitions)
+/// little-endian integer value of a byte string
+pub open spec fn le_int(b: Seq<u8>) -> int
+    decreases b.len()
+{
+    if b.len() == 0 { 0 } else { b[0] as int + 256 * le_int(b.subrange(1, b.len() as int)) }
+}
+
+/// n-byte little-endian encoding of an integer
+pub open spec fn le_bytes(v: int, n: nat) -> Seq<u8>
+    decreases n
+{
+    if n == 0 { Seq::<u8>::empty() } else { seq![(v % 256) as u8] + le_bytes(v / 256, (n - 1) as nat) }
+}
+pub broadcast proof fn lemma_le_int_nonneg(b: Seq<u8>)
+    ensures #[trigger] le_int(b) >= 0
+    decreases b.len()
+{
+    if b.len() > 0 { lemma_le_int_nonneg(b.subrange(1, b.len() as int)); }
+}
+
 // ---- iterator views used by Vec::extend / generic IntoIterator arguments
 pub uninterp spec fn iter_seq<T, I>(i: I) -> Seq<T>;
 
@@ -22,7 +43,7 @@ pub broadcast axiom fn ax_slice_len_bound<T>(s: &[T])
     ensures #[trigger] s@.len() <= usize::MAX;
 
 pub broadcast group group_iter_seq {
-    ax_slice_len_bound,
+    ax_slice_len_bound, lemma_le_int_nonneg,
     iter_seq_array, iter_seq_slice, iter_seq_vec, iter_seq_vec_ref, iter_seq_array_ref, ax_arr_of,
 }
 
@@ -77,7 +98,7 @@ impl VTryInto<u16> for usize {
 pub trait VU32: Sized {
     spec fn vu32(self) -> u32;
     fn v_to_le_bytes(self) -> (r: [u8; 4])
-        ensures r@ == spec_u32_to_le_bytes(self.vu32());
+        ensures r@ == le_bytes(self.vu32() as int, 4);
 }
 impl VU32 for u32 {
     open spec fn vu32(self) -> u32 { self }
@@ -97,10 +118,10 @@ impl VU16 for u16 {
 }
 #[verifier::external_body]
 pub fn v_u32_from_le_bytes(b: [u8; 4]) -> (r: u32)
-    ensures r == spec_u32_from_le_bytes(b@)
+    ensures r as int == le_int(b@)
 { u32::from_le_bytes(b) }
 
-pub open spec fn le32(x: u32) -> Seq<u8> { spec_u32_to_le_bytes(x) }
+pub open spec fn le32(x: u32) -> Seq<u8> { le_bytes(x as int, 4) }
 
 // ---- N5: every panic site is an obligation
 #[verifier::external_body]
